@@ -317,7 +317,7 @@ var theKeyEncoder = keyEncoder{id: attribute.NewEncoderID()}
 
 func main() {
 	vf.Main("C05", "exploration", func(c *vf.Ctx) {
-		c.Rule = "seeded slices of 0-40 key-values over a small hostile key alphabet and all eight value types (NaN payloads, signed zeros, empty and 1000-element slices); each slice is rebuilt in model-preserving permutations/duplications and in single-entry mutations; filters of allow/deny/arbitrary-predicate shape; lookups of present keys, the empty key and every present key's neighbours; scalars family (constructors and sets hand back the bits they were given); slices rebuilt with spare capacity and junk behind len; filter key slices reused by the caller. distinct = distinct (size class, value types present, filter branch, equality class) signatures"
+		c.Rule = "seeded slices of 0-40 key-values over a small hostile key alphabet and all eight value types (NaN payloads, signed zeros, empty and 1000-element slices); each slice is rebuilt in model-preserving permutations/duplications and in single-entry mutations; filters of allow/deny/arbitrary-predicate shape; lookups of present keys, the empty key and every present key's neighbours; scalars family (constructors and sets hand back the bits they were given); slices rebuilt with spare capacity and junk behind len; filter key slices reused by the caller; the caller's slice used for construction repeatedly. distinct = distinct (size class, value types present, filter branch, equality class) signatures"
 		c.Assume = []string{"sets differing only in NaN payload / sign of zero are not asserted equal or unequal (statement does not settle which notion of 'same value' applies)"}
 
 		// what a constructor is given is what the value (and a Set built from it) hands back, bit for bit:
